@@ -223,6 +223,20 @@ def summarise(crate, body, args=None):
                 effects.append((ind, f"{ind}RETURN {raw(e['value'])} WHEN {pc_text(e['pc'])}", frozenset(e['pc'])))
             else:
                 effects.append((ind, f"{ind}BREAK WHEN {pc_text(e['pc'])}", frozenset(e['pc'])))
+        elif k == 'panic':
+            # an assert / panic!() / unreachable!() of the function itself (also debug-only ones in the debug configuration)
+            effects.append((ind, f"{ind}PANIC WHEN {pc_text(e['pc'])}", frozenset(e['pc'])))
+        elif k == 'unwrap':
+            # `.unwrap()` / `.expect()` panics exactly when the option is None (the same line as a `panic!()` in the None arm)
+            a = T.unroot(e['arg'])
+            if isinstance(a, tuple) and a and a[0] in ('optproj', 'optmap') and isinstance(a[1], tuple) and a[1] and a[1][0] == 'first':
+                a = a[1]
+            if isinstance(a, tuple) and a and a[0] in ('some', 'ok'):
+                continue
+            kind = 'Ok' if 'Result' in str(e['node'].get('recv_ty', '')) else 'Some'
+            fail = T.tnot(('matches', a, kind))
+            pcs = tuple(e['pc']) + (fail,)
+            effects.append((ind, f"{ind}PANIC WHEN {pc_text(pcs)}", frozenset(pcs)))
         elif k == 'mutcall':
             callt = ('call', e['callee'].split('::')[-1], tuple(T.unroot(CANON(a)) for a in e['args'][1:]))
             for cpc, cv in cases(callt):
